@@ -25,7 +25,9 @@ DIMS = [
                 # the literal shares its first line with the def / class header, or is parenthesised
                 'defline', 'paren']),
     ('layout', ['free_first', 'free_prose', 'two_groups', 'google', 'google_after_args', 'google_second',
-                'free_after_ignored', 'free_ignored_between']),
+                'free_after_ignored', 'free_ignored_between',
+                # a blank line / a line of prose between the block label and its first prompt (known finding F46)
+                'google_blank_after_label', 'google_prose_after_label']),
     ('fail', ['none', 'exc1', 'exc_ml', 'helper', 'modfunc', 'want1', 'want2',
               'exc_tryfinally', 'exc_tryexcept', 'exc_for', 'exc_with', 'want_dotst', 'want_dotst_call']),
     ('pos', ['last', 'first', 'middle']),
@@ -253,6 +255,12 @@ def build(cfg):
     elif layout == 'google':
         w.emit(I + 'Example:')
         blocks.append(emit_body(I + '    ', 0))
+    elif layout in ('google_blank_after_label', 'google_prose_after_label'):
+        w.emit(I + 'Example:')
+        if layout == 'google_prose_after_label':
+            w.emit(I + '    The following shows the idea.')
+        w.emit('')
+        blocks.append(emit_body(I + '    ', 0))
     elif layout == 'google_after_args':
         w.emit(I + 'Args:')
         w.emit(I + '    self (object): nothing')
@@ -346,7 +354,11 @@ class LinenoSpec(Spec):
     def final(self, S, hist):
         return len(hist) == len(DIMS)
 
+    analysis = 'static'
+
     def tag(self, sig, style, cfg):
+        if sig == 'lineno:start' and cfg.get('layout') in ('google_blank_after_label', 'google_prose_after_label') and style != 'freeform':
+            return sig + ':' + cfg['layout']
         return sig
 
     def config_of(self, hist):
@@ -370,7 +382,7 @@ class LinenoSpec(Spec):
                     with contextlib.redirect_stdout(io.StringIO()), warnings.catch_warnings():
                         warnings.simplefilter('ignore')
                         try:
-                            exs = list(core.parse_doctestables(path, style=style, analysis='static'))
+                            exs = list(core.parse_doctestables(path, style=style, analysis=self.analysis))
                         except Exception as ex:
                             atoms.append({'sig': self.tag('collect-raises:' + type(ex).__name__, style, cfg), 'msg': repr(ex)})
                             continue
@@ -479,7 +491,53 @@ class EscapeSpec(LinenoSpec):
         return r
 
 
+DDIMS = [
+    ('nest', ['func', 'method', 'cls']),
+    ('layout', ['free_first', 'free_prose', 'google', 'google_second']),
+    ('fail', ['exc1', 'want1', 'none']),
+    ('decos', [0, 1]),
+]
+
+
+class DynamicSpec(LinenoSpec):
+    """the same question under analysis='dynamic' (known finding F45: dynamic analysis does not know where a docstring starts and
+    numbers every doctest from line 1 of the file)"""
+    title = 'line numbers of doctests collected with analysis=dynamic'
+    analysis = 'dynamic'
+
+    def __init__(self, name):
+        self.name = name
+        self.max_len = len(DDIMS)
+        self.max_cost = 99
+        self.rule = ('full product of %s collected with analysis=dynamic under 3 styles; oracle as for the static layouts; '
+                     'non-trivial = all' % ', '.join('%s(%d)' % (n, len(v)) for n, v in DDIMS))
+
+    def enabled(self, S, hist):
+        return DDIMS[len(hist)][1]
+
+    def cost(self, ev):
+        return 0
+
+    def final(self, S, hist):
+        return len(hist) == len(DDIMS)
+
+    def config_of(self, hist):
+        cfg = {n: v[0] for n, v in DIMS}
+        cfg.update(dict(zip([d[0] for d in DDIMS], hist)))
+        cfg['pos'] = 'last'
+        return cfg
+
+    def tag(self, sig, style, cfg):
+        what = sig.split(':')[1] if sig.startswith('lineno:') else sig
+        return 'dynamic:%s' % what
+
+    def run_case(self, hist):
+        r = LinenoSpec.run_case(self, hist)
+        r['nontrivial'] = 1
+        return r
+
+
 def specs(tier):
     if tier == 'thorough':
-        return [LinenoSpec('layouts-cost<=4', 4), EscapeSpec('escapes')]
-    return [LinenoSpec('layouts-cost<=3', 3), EscapeSpec('escapes')]
+        return [LinenoSpec('layouts-cost<=4', 4), EscapeSpec('escapes'), DynamicSpec('dynamic-analysis')]
+    return [LinenoSpec('layouts-cost<=3', 3), EscapeSpec('escapes'), DynamicSpec('dynamic-analysis')]
